@@ -23,12 +23,13 @@ from urllib3.exceptions import HTTPError
 from urllib3.util.retry import Retry
 
 (B_CL, B_CL_CLOSE, B_CHUNKED, B_CLOSE_DELIM, B_204_STRAY, B_HEAD_STRAY, B_304_STRAY, B_CL_STRAY, B_EARLY_EOF, B_GARBAGE,
- B_CHUNKED_BADSIZE, B_CHUNKED_LIE, B_CL_NESTED, B_CHUNKED_TRAILER) = range(14)
+ B_CHUNKED_BADSIZE, B_CHUNKED_LIE, B_CL_NESTED, B_CHUNKED_TRAILER, B_GZIP_CORRUPT) = range(15)
 BNAMES = ["CL keep-alive", "CL + Connection: close", "chunked", "close-delimited", "204 + stray bytes", "HEAD reply + stray bytes",
           "304 + stray bytes", "complete CL body + stray bytes", "early EOF inside the body", "garbage status line",
           "chunked with a malformed size line", "announces chunked, sends a malformed size line, rest (a well-formed message) follows later",
           "Content-Length body whose tail is itself a well-formed HTTP response",
-          "chunked with a trailer section whose later lines look like a response head (slow peer: they arrive when asked for, or after the next request)"]
+          "chunked with a trailer section whose later lines look like a response head (slow peer: they arrive when asked for, or after the next request)",
+          "Content-Encoding: gzip body that is not gzip; its second half (a well-formed response) is still in flight when decoding fails"]
 D_READ, D_READK_RELEASE, D_RELEASE, D_DRAIN, D_CLOSE, D_STREAM, D_STREAM1_RELEASE, D_PRELOAD = range(8)
 DNAMES = ["read()", "read(k)+release_conn()", "release_conn() unread", "drain_conn()", "close()", "stream() to the end",
           "one stream piece then release_conn()", "preload_content=True"]
@@ -67,6 +68,11 @@ def script(i, b):
         return [b"\x00\x01 garbage\r\n\r\n", b""], None, b"", False
     if b == B_CHUNKED_BADSIZE:
         return [b"HTTP/1.1 200 OK\r\nTransfer-Encoding: chunked\r\n\r\n4\r\n" + body[:4] + b"\r\nZZ\r\n" + body[4:] + b"\r\n0\r\n\r\n"], 200, body, False
+    if b == B_GZIP_CORRUPT:
+        stale = b"HTTP/1.1 206 Stale\r\nContent-Length: 0\r\n\r\n"
+        first = b"\x1f\x8b\x08\x00 this is not a deflate stream"
+        return [b"HTTP/1.1 200 OK\r\nContent-Encoding: gzip\r\nContent-Length: %d\r\n\r\n" % (len(first) + len(stale)) + first,
+                stale], 200, b"", True
     if b == B_CHUNKED_TRAILER:
         # one message: chunks, last-chunk, three trailer lines, empty line.  Everything belongs to request i.
         return [b"HTTP/1.1 200 OK\r\nTransfer-Encoding: chunked\r\n\r\nA\r\n" + body + b"\r\n0\r\nX-Trailer: 1\r\n",
@@ -248,7 +254,7 @@ def _opts(bs, ds, ks, late_ok):
                 continue
             for k in (ks if d == D_READK_RELEASE else ks[:1]):
                 lates = [False]
-                if late_ok and ((d in (1, 2, 6) and b in (0, 2, 12)) or (b == 11 and d in (0, 1, 3, 5)) or b == B_CHUNKED_TRAILER):
+                if late_ok and ((d in (1, 2, 6) and b in (0, 2, 12)) or (b == 11 and d in (0, 1, 3, 5)) or b == B_CHUNKED_TRAILER or (b == B_GZIP_CORRUPT and d in (0, 1, 3, 5, 6, 7))):
                     lates = [False, True]
                 # what happens to the response OBJECT afterwards: kept alive (http.client then refuses to reuse the connection
                 # while it is unread), dropped (garbage-collected), or closed
@@ -290,7 +296,7 @@ def JOBS(tier):
     quick = tier == "quick"
     t = 170 if quick else 900
     jobs = []
-    allb = list(range(14))
+    allb = list(range(15))
     alld = list(range(8))
 
     def add(part):
@@ -310,7 +316,7 @@ def JOBS(tier):
 
 
 EVIDENCE = {
-    "bounds": {"quick": "histories of 2 requests on a pool of maxsize 1: first request = every (server behaviour x caller disposal) pair of 14 "
+    "bounds": {"quick": "histories of 2 requests on a pool of maxsize 1: first request = every (server behaviour x caller disposal) pair of 15 "
                         "behaviours x 8 disposals, remainder in flight or delivered; second request = 6 behaviours x {read, read(k)+release, "
                         "preload, stream} x retries on/off; every history is one solver model of a single index variable",
                "thorough": "maxsize <= 2, every behaviour and disposal for both requests, k in {0,3,10,11}; histories of 3 requests for 60 first-two "
